@@ -64,7 +64,7 @@ def gen_base(rng, tier, index):
             n = rng.randint(1, max(1, workers - 1))
         else:
             n = rng.randint(2, 60 if kind == "fmap" else 40)
-        call = {"ordered": True, "n": n, "chunk": chunk, "form": rng.choice(["list", "list", "gen", "iter", "slow", "deque", "intseq", "array_like"]), "list_items": rng.random() < 0.25,
+        call = {"ordered": True, "n": n, "chunk": chunk, "form": rng.choice(["list", "list", "gen", "iter", "slow", "deque", "intseq", "array_like", "hinted"]), "list_items": rng.random() < 0.25,
                 "salt": rng.randrange(1000)}
         if call["form"] == "slow":
             call["slow"] = {"before": {str(rng.randrange(max(1, n))): 0.03} if n else {}, "stop": rng.choice([0, 0.05])}
@@ -87,6 +87,10 @@ def gen_base(rng, tier, index):
         calls.append(call)
     # combinations that must not depend on the luck of the draw (every 16 bases): results larger than a pipe buffer through
     # both APIs, exception objects and twin items through mul_p_map
+    if index % 16 in (3, 10) and calls:
+        # "everything in one chunk" spelled as a huge chunk size; an input whose length hint is too large
+        calls[0].update(chunk=calls[0]["n"] + 5, chunk_special=["maxsize", "huge", "inf"][(index // 16 + index) % 3], form="hinted")
+        calls[0].pop("durations", None)
     forced = {1: ("fmap", {"result_size": 200_000}), 5: ("mulpmap", {"result_size": 200_000}), 11: ("mulpmap", {"exc_results": True}),
               8: ("mulpmap", {"twins": True})}.get(index % 16)
     if forced and forced[0] == kind:
